@@ -2,14 +2,31 @@
  * C13 DecodeInto capacity.  Allocation sizes are concrete (size-dispatch stub). */
 #include "arr.h"
 #include "varintDict.h"
-#define VP_ALLOC_SIZES X(0) X(8) X(16) X(24) X(32) X(40) X(48) X(128)
+#ifndef N
+#define N 3
+#endif
+#define VP_ALLOC_SIZES X(0) X(8) X(16) X(24) X(32) X(40) X(48) X(128) X(N * 8)
 #include "vp_alloc.inc"
 #ifndef N
 #define N 3
 #endif
+#ifdef LIT
+#define MAXSIZE (2 + N * 2 + 9 + 2 + N * 2 + 3)
+#else
 #define MAXSIZE (1 + N * 9 + 1 + N * 1 + 3)
+#endif
 void harness(void) {
+#ifdef LIT
+    /* boundary instance: N literal distinct values (index-width boundaries 255/256/257 entries), last one symbolic */
+    VP_IN(uint64_t, last);
+    VP_ASSUME(last > 3 * N + 10);
+    uint64_t v[N];
+    for (unsigned i = 0; i < N; i++)
+        v[i] = 3 * i + 1;
+    v[N - 1] = last;
+#else
     VP_IN_ARR(uint64_t, v, N);
+#endif
     VP_IN_ARR(uint8_t, init, MAXSIZE);
     VP_IN_ARR(uint8_t, junk, MAXSIZE);
     /* ground truth: number of distinct values and sum of their tagged lengths */
@@ -24,7 +41,11 @@ void harness(void) {
             dictbytes += ref_tagged_len(v[i]);
         }
     }
+#ifdef LIT
+    unsigned truth = ref_tagged_len(uniq) + dictbytes + ref_tagged_len(N) + N * ref_bytes(uniq - 1);
+#else
     unsigned truth = 1 + dictbytes + 1 + N * 1; /* N <= 240 entries: 1-byte sizes and indices */
+#endif
     uint8_t dst[MAXSIZE];
     for (unsigned i = 0; i < MAXSIZE; i++)
         dst[i] = init[i];
